@@ -1,5 +1,11 @@
 """C20 — scenario helpers decode run-length / care / on-off specs to the table denoted.
 
+Value / size coverage (blind-spot audit r7): run values, storage parameters and cost coefficients are dyadic or, with
+probability 1/4, decimals k/10, k/1000, k/10000 (so float32 storage, `round(v, 3)`, `int()` are visible); stored-only outputs
+(run tables, cbounds, bounds, parameters) are compared at 1e-12; the quick basis pool contains 24, 25 and 48 with run /
+interval starts at or above 24 (hour-of-day arithmetic); `peak_flow` has up to 5 coefficients; a fixed load accepted with
+SOME open slots must still carry the table of its runs.
+
 Case kinds (description-first; numbers are dyadic rationals as strings):
   run     loader.run_to_array       a run dictionary (1..6 runs, scalar or vector values, shuffled keys)
   cb      loader.run_to_cbounds     a run dictionary of [l, h] pairs
@@ -218,6 +224,8 @@ def gen_starts(rng, basis, k, zero=True, beyond=False):
   pool = list(range(1, basis))
   rng.shuffle(pool)
   starts = ([0] if zero else []) + sorted(pool[:max(0, k - (1 if zero else 0))])
+  if basis > 24 and rng.random() < 0.6:
+    starts.append(rng.randint(24, basis - 1))        # a run that starts in the second day
   if beyond and rng.random() < 0.5:
     starts.append(basis + rng.randint(0, 3))
   return sorted(set(starts))
@@ -238,12 +246,28 @@ def val(rng, lo=-4, hi=4, bits=2):
   return fs(dy(rng, lo, hi, bits))
 
 
+def decq(rng, lo, hi):
+  """a decimal k/1000 or k/10000 in [lo, hi]: NOT a dyadic, so float32 storage / round(v, 3) / int() change it."""
+  den = rng.choice([1000, 1000, 10000, 10000, 10])
+  a, b = math.ceil(F(lo)*den), math.floor(F(hi)*den)
+  return Fraction(rng.randint(a, b), den) if a <= b else F(lo)
+
+
+def rq(rng, lo, hi, bits=2, p_dec=0.25):
+  """a stored-only value (run value, storage parameter, coefficient): dyadic, or with probability p_dec a decimal."""
+  return decq(rng, lo, hi) if rng.random() < p_dec else dy(rng, lo, hi, bits)
+
+
+def rval(rng, lo=-4, hi=4):
+  return fs(rq(rng, lo, hi))
+
+
 def gen_run(rng, basis, shape=None, zero=True, beyond=False, k=None):
   """a homogeneous run dictionary; shape None = scalar, int = vector length."""
   starts = gen_starts(rng, basis, k or pick_k(rng, basis), zero, beyond)
   runs = []
   for s in starts:
-    runs.append([s, val(rng) if shape is None else [val(rng) for _ in range(shape)]])
+    runs.append([s, rval(rng) if shape is None else [rval(rng) for _ in range(shape)]])
   return {'basis': basis, 'runs': shuffled(rng, runs)}
 
 
@@ -305,15 +329,17 @@ def gen_costs(rng, basis, kind):
     if k == 'flow':
       c[k] = gen_run(rng, basis, shape=3 if rng.random() < 0.9 else 4)
       for r in c[k]['runs']:
-        r[1][0] = fs(dy(rng, 0, 3))           # convex quadratic
+        r[1][0] = fs(rq(rng, 0, 3))           # convex quadratic
     elif k == 'flow_bounds_relative':
       c[k] = gen_run(rng, basis, shape=2)
       for r in c[k]['runs']:
-        a = dy(rng, -3, 0); r[1] = [fs(a), fs(a + dy(rng, 0, 3))]
+        a = rq(rng, -3, 0); r[1] = [fs(a), fs(a + rq(rng, 0, 3))]
     elif k == 'cumulative_flow_bounds_relative':
-      a = dy(rng, -3, 0); c[k] = [fs(a), fs(a + dy(rng, 0, 3))]
+      a = rq(rng, -3, 0); c[k] = [fs(a), fs(a + rq(rng, 0, 3))]
     elif k == 'peak_flow':
-      c[k] = [val(rng, 0, 2) for _ in range(rng.choice([1, 2, 3, 3]))]
+      c[k] = [rval(rng, 0, 2) for _ in range(rng.choice([1, 2, 3, 3, 4, 5]))]      # up to a quartic: every coefficient counts
+      if F(c[k][0]) == 0:
+        c[k][0] = fs(Fraction(rng.randint(1, 8), 4))
   return c
 
 
@@ -340,11 +366,11 @@ def gen_storage(rng, basis):
   d = {'type': 'storage', 'bounds': gen_bounds_run(rng, basis, '-')}
   keys = [k for k in STORAGE_KEYS if rng.random() < 0.6]
   rng.shuffle(keys)
-  c2 = dy(rng, 0, 1)
-  vals = {'capacity': dy(rng, 1, 12), 'efficiencyFactor': rng.choice([F(1), Fraction(1, 2), Fraction(3, 4), Fraction(7, 8)]),
-          'reserveRatio': dy(rng, 0, 1), 'startingRatio': dy(rng, 0, 1),
-          'fastChargeCostFactor': c2 + Fraction(rng.randint(1, 8), 4), 'flipFlopCostFactor': c2,
-          'deepDischargeCostFactor': dy(rng, 0, 3), 'deepDepthRatio': dy(rng, 0, 1)}
+  c2 = rq(rng, 0, 1)
+  vals = {'capacity': rq(rng, 1, 12), 'efficiencyFactor': rng.choice([F(1), Fraction(1, 2), Fraction(3, 4), Fraction(7, 8), decq(rng, Fraction(1, 2), 1)]),
+          'reserveRatio': rq(rng, 0, 1), 'startingRatio': rq(rng, 0, 1),
+          'fastChargeCostFactor': c2 + Fraction(rng.randint(1, 8), 4) + (decq(rng, 0, Fraction(1, 8)) if rng.random() < 0.25 else 0), 'flipFlopCostFactor': c2,
+          'deepDischargeCostFactor': rq(rng, 0, 3), 'deepDepthRatio': rq(rng, 0, 1)}
   d['parameters'] = [[k, fs(vals[k])] for k in keys]
   return d
 
@@ -464,7 +490,7 @@ def gen_export(rng, tier, focus=None):
 def pick_basis(rng, tier):
   if tier == 'thorough':
     return rng.choice(list(range(1, 13))*3 + [16, 24, 31, 48])
-  return rng.choice([1, 2, 2, 3, 3, 4, 4, 5, 6, 7, 8, 10, 12])
+  return rng.choice([1, 2, 2, 3, 3, 4, 4, 5, 6, 7, 8, 10, 12, 12, 24, 25, 25, 48, 48])      # beyond a day of hourly slots too
 
 
 def gen_run_case(rng, tier):
@@ -511,7 +537,8 @@ def gen_on_case(rng, tier):
   l = pick_basis(rng, tier)
   on = []
   for _ in range(rng.choice([0, 1, 1, 2, 2, 3])):
-    a = rng.randrange(l); b = rng.randint(a, min(l - 1 + (1 if rng.random() < 0.1 else 0), a + 4))
+    a = rng.randrange(l) if l <= 24 or rng.random() < 0.5 else rng.randint(24, l - 1)
+    b = rng.randint(a, min(l - 1 + (1 if rng.random() < 0.1 else 0), a + rng.choice([0, 1, 4, 6])))
     on += [a, b]
   if rng.random() < 0.05 and on:
     on = on[:-1]                                   # odd length: IndexError
@@ -542,7 +569,7 @@ def o_floats(v):
 
 def close(a, b):
   a = np().array(a, dtype=float); b = np().array(b, dtype=float)
-  return a.shape == b.shape and bool(np().all(np().abs(a - b) <= 1e-9*np().maximum(1, np().abs(b))))
+  return a.shape == b.shape and bool(np().all(np().abs(a - b) <= 1e-12*np().maximum(1, np().abs(b))))      # stored values: no arithmetic beyond a sign
 
 
 def has_zero(run):
@@ -562,6 +589,9 @@ S_MAP = {'capacity': 'capacity', 'efficiencyFactor': 'efficiency', 'reserveRatio
          'fastChargeCostFactor': 'c1', 'flipFlopCostFactor': 'c2', 'deepDischargeCostFactor': 'c3', 'deepDepthRatio': 'damage_depth'}
 
 
+FIXED_OPEN = 'fixed load with a slot whose bounds differ'     # may be rejected; if ACCEPTED the leaf must still be the expansion
+
+
 def o_well_formed(d, basis):
   """None when the exported device is well-formed in the property's sense, else the reason it must be rejected."""
   if d['type'] not in ('load', 'fixed_load', 'storage', 'supply', 'thermal_load'):
@@ -578,7 +608,7 @@ def o_well_formed(d, basis):
   if any(not isinstance(v, list) or len(v) != 2 or F(v[0]) > F(v[1]) for v in tb):
     return 'bounds are not ordered pairs'
   if d['type'] == 'fixed_load' and any(F(v[0]) != F(v[1]) for v in tb):
-    return 'fixed load with a slot whose bounds differ'
+    return FIXED_OPEN
   if d['type'] in ('load', 'supply') and 'costs' not in d:
     return 'no costs entry'
   if 'cumulative_flow' in costs:
@@ -732,7 +762,7 @@ class C20(Prop):
     'runToCboundsNp_eq', 'load_cbounds_spec', 'runToArrayNp_spec', 'flowTerm_spec', 'fbrTerm_spec', 'cboundsOf_chained',
     'rangesFn_eval', 'cfbr_spec', 'loadCostFunction_ok', 'load_leaf_spec', 'supply_leaf_spec', 'storage_leaf_spec',
     'storageSet_spec', 'storageParams_spec', 'storageParams_unknown')]
-  rule = ('run dictionaries (1..6 runs, scalar / vector values, shuffled keys, basis 1..12 quick / ..48 thorough), care masks, '
+  rule = ('run dictionaries (1..6 runs, scalar / vector values, shuffled keys, ~25 % of stored values non-dyadic decimals k/10, k/1000, k/10000; basis 1..12, 24, 25, 48 quick / ..48 thorough, run and interval starts at or above 24), care masks, '
           'on-interval lists, supply bounds, and builder exports of every kind (load x each cost kind, fixed_load, storage, supply, '
           'thermal_load); non-trivial: a run dictionary with >= 2 runs; an export with >= 2 runs in some device and >= 2 device kinds; '
           'a mask with both cared and uncared slots; an on-list with a slot on and a slot off')
@@ -789,6 +819,17 @@ class C20(Prop):
       ex(1, [{'type': 'fixed_load', 'bounds': run(1, [[0, ['1', '1']]])}], name='myset'),
       {'k': 'care', 'n': 2, 'care': ['1', '0'], 'bounds': {'form': 'vector', 'v': ['1', '3']}},
       {'k': 'on', 'l': 2, 'on': [0, 0], 'bounds': {'form': 'vector', 'v': ['1', '3']}},
+      # blind spots found by the audit r7: non-dyadic stored values, horizons / starts >= 24, peak_flow of degree 3
+      {'k': 'run', 'run': run(3, [[0, '1/10'], [2, '3/10']]), '_mixed': False, '_ints': False},
+      {'k': 'run', 'run': run(3, [[0, ['1/10', '1234/10000']], [1, ['-7/1000', '2']]]), '_mixed': False, '_ints': False},
+      {'k': 'cb', 'run': run(48, [[0, ['0', '10']], [12, ['1/10', '40']]]), '_bad': False, '_ints': False},
+      {'k': 'on', 'l': 48, 'on': [30, 35], 'bounds': {'form': 'pair', 'lo': '1', 'hi': '3'}},
+      {'k': 'on', 'l': 25, 'on': [2, 3, 24, 24], 'bounds': {'form': 'pair', 'lo': '1/10', 'hi': '3'}},
+      ex(2, [{'type': 'load', 'bounds': run(2, [[0, ['0', '4']]]), 'costs': {'peak_flow': ['1', '0', '0', '0']}}]),
+      ex(2, [{'type': 'load', 'bounds': run(2, [[0, ['0', '4']]]), 'costs': {'peak_flow': ['1/2', '1', '0', '1/10', '3']}}]),
+      ex(1, [{'type': 'storage', 'bounds': run(1, [[0, ['-1', '1']]]), 'parameters': [['capacity', '51234/10000'], ['efficiencyFactor', '9123/10000']]}]),
+      ex(48, [{'type': 'load', 'bounds': run(48, [[0, ['0', '1']], [30, ['1/2', '2']]]), 'cumulative_bounds': run(48, [[0, ['0', '10']], [12, ['1', '40']]]), 'costs': {}}]),
+      ex(6, [{'type': 'fixed_load', '_malformed': 'fixed-partly-open', 'bounds': run(6, [[0, ['1', '1']], [4, ['1/2', '2']]])}]),      # C20-F
     ]
 
   # ---- T2
@@ -796,10 +837,10 @@ class C20(Prop):
     k = case['k']; ints = case.get('_ints', False)
     if k == 'run':
       run = py_run(case['run'], ints)
-      return [Op({'op': 'loader.run_to_array', 'run': case['run']}, lambda: outcome(lambda: L().run_to_array(run)), 1e-9, 'run_to_array')]
+      return [Op({'op': 'loader.run_to_array', 'run': case['run']}, lambda: outcome(lambda: L().run_to_array(run)), 1e-12, 'run_to_array')]
     if k == 'cb':
       run = py_run(case['run'], ints)
-      return [Op({'op': 'loader.run_to_cbounds', 'run': case['run']}, lambda: outcome(lambda: L().run_to_cbounds_array(run)), 1e-9, 'run_to_cbounds_array')]
+      return [Op({'op': 'loader.run_to_cbounds', 'run': case['run']}, lambda: outcome(lambda: L().run_to_cbounds_array(run)), 1e-12, 'run_to_cbounds_array')]
     if k == 'care':
       dev = {'care': np().array([pf(x) for x in case['care']]), 'bounds': py_helper_bounds(case['bounds'])}
       return [Op({'op': 'loader.care2bounds', 'n': case['n'], 'care': case['care'], 'bounds': case['bounds']},
@@ -811,7 +852,7 @@ class C20(Prop):
     if k == 'supply':
       d = {'type': 'supply', 'bounds': py_run(case['run'], ints), 'costs': {}}
       return [Op({'op': 'loader.supply_bounds', 'run': case['run']},
-                 lambda: outcome(lambda: L().load_supply_device(d, case['run']['basis']).bounds), 1e-9, 'supply bounds')]
+                 lambda: outcome(lambda: L().load_supply_device(d, case['run']['basis']).bounds), 1e-12, 'supply bounds')]
     if k == 'export':
       e = case['export']; pr = case['probe']
       ex1, ex2 = py_export(e, ints), py_export(e, ints)
@@ -919,8 +960,10 @@ class C20(Prop):
       exc = None
     except Exception as ex:
       exc = ex
-    if any(reasons):
+    if any(r for r in reasons if r != FIXED_OPEN) or (exc is not None and any(reasons)):
       return []            # outside the property: which exports are rejected (and how) is not part of C20
+    # (an export whose only irregularity is a fixed load with open slots and that WAS accepted falls through:
+    #  one leaf per device, and every leaf's bounds table must be the table of its runs)
     if exc is not None:
       # which exported device cannot load?  (one-device exports, same basis)
       for i, d in enumerate(e['devices']):
